@@ -24,7 +24,7 @@ func (c *c08Oracle) Check(w *World, o *Obs) []Violation {
 		return nil
 	}
 	api := ""
-	for _, a := range []string{"mw", "legacy"} {
+	for _, a := range []string{"mw", "legacy", "chain"} {
 		if strings.HasPrefix(st.str("path"), "/probe/"+a+"/") {
 			api = a
 		}
@@ -43,13 +43,16 @@ func (c *c08Oracle) Check(w *World, o *Obs) []Violation {
 	if api == "legacy" {
 		w.Stats.Reach["c08_legacy_wrapper"]++
 	}
+	if api == "chain" {
+		w.Stats.Reach["c08_user_loaded_by_outer_middleware"]++
+	}
 	if o.Method != "GET" {
 		w.Stats.Reach["c08_method_other_than_get"]++
 	}
 	uid := o.uidBefore()
 	half := o.SessBefore["halfauth"] != ""
 	twofa := o.SessBefore["twofactor"] != ""
-	if ck := o.presented("cookie"); ck != nil && uid == "" && w.Cfg.hasModule("remember") && !w.Cfg.hasSetup("expire") {
+	if ck := o.presented("cookie"); ck != nil && uid == "" && w.rememberActive() {
 		// the remember middleware authenticates inside this very request: a
 		// usable cookie makes its account the (half-authenticated) user
 		switch {
@@ -213,6 +216,11 @@ func (g *c08Gen) sweep(w *World, b int) []Step {
 					st.Str["method"] = []string{"HEAD", "POST", "PUT", "DELETE"}[g.r.Intn(4)]
 				}
 				out = append(out, st)
+				if g.r.Chance(1, 3) {
+					// the same row with the current user already loaded by an outer middleware
+					cp := fmt.Sprintf("/probe/chain/%d/%d/%d/%s", reqs, mode, mpi, strings.Join(segs, "/"))
+					out = append(out, Step{Kind: "probe", B: b, A: -1, Str: map[string]string{"path": cp, "rawquery": rawQueries[g.r.Intn(len(rawQueries))]}})
+				}
 				if mode < 2 && g.r.Chance(1, 2) {
 					// the same row through the older boolean wrappers
 					lp := fmt.Sprintf("/probe/legacy/%d/%d/%d/%s", reqs, mode, mpi, strings.Join(segs, "/"))
@@ -415,7 +423,14 @@ func (c *c09Oracle) Check(w *World, o *Obs) []Violation {
 	}
 	// activity bookkeeping: login starts the clock, live requests push it
 	if after := o.uidAfter(); after != "" {
-		if _, put := o.sessPut("uid"); put || uid == "" {
+		if _, byHandler := w.loginPut(o); !byHandler && uid == "" && o.SessAfter["halfauth"] == "true" {
+			// the remember middleware (outside the expire middleware) has just
+			// logged the browser in: whether that already counts as activity
+			// is left open, the clock is known from the next request on
+			delete(c.last, st.B)
+			c.kind(st.B, "remember_cookie")
+			w.Stats.Reach["c09_login_by_remember_cookie"]++
+		} else if _, put := o.sessPut("uid"); put || uid == "" {
 			c.last[st.B] = o.Now
 			c.kind(st.B, st.Kind)
 			w.Stats.Reach["c09_login_"+st.Kind]++
@@ -515,7 +530,7 @@ func (c *c10Oracle) Check(w *World, o *Obs) []Violation {
 	if !isLogoutPath {
 		return out
 	}
-	cookieAuth := o.presented("cookie") != nil && o.uidBefore() == "" && w.Cfg.hasModule("remember") && !w.Cfg.hasSetup("expire")
+	cookieAuth := o.presented("cookie") != nil && o.uidBefore() == "" && w.rememberActive()
 	if o.Method == w.Cfg.LogoutMethod {
 		if o.FaultFired != "" {
 			return out
